@@ -314,8 +314,7 @@ r("xml_info::XmlItem::remove_from_parent|panic|unreachable!#1",
   "Comment, Element, PI, Text, Unexpanded, DocumentType) have an attribute, element or document as parent - items whose parent "
   "is the DOCTYPE (entities, notations, PIs of the internal subset) are refused or have no DOM handle", "remove_after_kind_test")
 
-r("xml_info::XmlElement::node|index|index<-arg1#1",
-  "`value.attributes[..i]` with i produced by enumerate() over the same vector: i < len")
+# XmlElement::node `value.attributes[..i]`: discharged automatically (A9, idxproof.py)
 
 # ---- order vector (affine index rule C14-4 checks the expressions)
 r("xml_info::DocumentOrder::insert_after|vec-index|insert<-arg1#1", "order = position+1 <= len (guarded by order > 0)")
